@@ -12,10 +12,11 @@ import (
 func main() {
 	c := ev.Main(map[string]string{"C12": "exploration", "C13": "exploration"})
 	switch c.Prop {
+	// both run in one child process each (ev.Isolated): an unrecoverable crash of the code under test is a violation
 	case "C12":
-		checkC12(c)
+		c.Isolated(func() { checkC12(c) })
 	case "C13":
-		checkC13(c)
+		c.Isolated(func() { checkC13(c) })
 	}
 	os.Exit(c.Finish())
 }
